@@ -220,6 +220,9 @@ class FutureConnector(Connector):
         )
 
     async def undeploy(self, external: bool) -> None:
+        # Wait for an in-flight deployment to finish before undeploying it
+        if self.deploying and self._connector is None:
+            await self.deploy_event.wait()
         if self._connector is not None:
             await self._connector.undeploy(external)
 
